@@ -4,6 +4,7 @@ The theorems are about the dispatch *algorithm* for an arbitrary cast relation; 
 of the catalogue is compared with the specification by the correspondence check (exhaustive matrix).
 -/
 import ChaiVerif.Model.Dispatch
+import ChaiVerif.Lemmas.Bind
 namespace ChaiVerif.C06
 open ChaiVerif
 
@@ -115,5 +116,92 @@ theorem dispatch_arity (c : DCfg P A) (fs : List (DFn P)) (args : List A)
   apply dispatch_none
   intro f hf hlen
   exact absurd hlen (h f hf)
+
+/-! ### bind: which value reaches which parameter -/
+section BindSection
+open ChaiVerif.Bind
+
+/-- **the loops of `Bound_Function::build_param_list` compute the specification** `fill`: stored values stay in place, placeholders take the
+    call's arguments in order, surplus arguments are appended — for every pattern of stored values and placeholders and every argument list -/
+theorem bind_loops_are_the_specification {α : Type} (bs : List (Option α)) (ps : List α) : buildParamList bs ps = fill bs ps := by
+  unfold buildParamList
+  rw [bindLoop_eq _ _ _ _ (Nat.lt_succ_self _)]
+  rfl
+
+/-- with as many arguments as placeholders the callee receives exactly as many values as `bind` was given -/
+theorem bind_arity {α : Type} : ∀ (bs : List (Option α)) (ps : List α), bs.countP Option.isNone = ps.length → (fill bs ps).length = bs.length := by
+  intro bs
+  induction bs with
+  | nil => intro ps h; simp at h; simp [fill_nil, List.length_eq_zero_iff.mp h.symm]
+  | cons b rest ih =>
+    intro ps h
+    cases b with
+    | some v => simp [fill]; exact ih ps (by simpa using h)
+    | none =>
+      cases ps with
+      | nil => simp at h
+      | cons p ps' => simp [fill]; exact ih ps' (by simpa using h)
+
+/-- **a stored value reaches the parameter it was bound to**, whatever surrounds it (several stored values in a row, placeholders before or after) -/
+theorem bind_stored_values_stay {α : Type} : ∀ (bs : List (Option α)) (ps : List α) (i : Nat) (v : α),
+    bs[i]? = some (some v) → (bs.take i).countP Option.isNone ≤ ps.length → (fill bs ps)[i]? = some v := by
+  intro bs
+  induction bs with
+  | nil => intro ps i v h; simp at h
+  | cons b rest ih =>
+    intro ps i v h hc
+    cases i with
+    | zero =>
+      simp at h
+      subst h
+      simp [fill]
+    | succ j =>
+      simp at h
+      cases b with
+      | some w =>
+        simp [fill]
+        exact ih ps j v h (by simpa using hc)
+      | none =>
+        cases ps with
+        | nil => simp at hc
+        | cons p ps' =>
+          simp [fill]
+          exact ih ps' j v h (by simp at hc; omega)
+
+/-- the values found at the placeholder positions -/
+def atPlaceholders {α : Type} (bs : List (Option α)) (vs : List α) : List α :=
+  (bs.zip vs).filterMap (fun x => if x.1.isNone then some x.2 else none)
+
+/-- **the call's arguments reach the placeholders' parameters, in order** -/
+theorem bind_call_arguments_in_order {α : Type} : ∀ (bs : List (Option α)) (ps : List α), bs.countP Option.isNone = ps.length →
+    atPlaceholders bs (fill bs ps) = ps := by
+  intro bs
+  induction bs with
+  | nil => intro ps h; simp at h; simp [atPlaceholders, List.length_eq_zero_iff.mp h.symm]
+  | cons b rest ih =>
+    intro ps h
+    cases b with
+    | some v =>
+      have := ih ps (by simpa using h)
+      simpa [fill, atPlaceholders] using this
+    | none =>
+      cases ps with
+      | nil => simp at h
+      | cons p ps' =>
+        have := ih ps' (by simpa using h)
+        simpa [fill, atPlaceholders] using this
+
+/-- no placeholders: the call's arguments follow the stored ones -/
+theorem bind_without_placeholders {α : Type} (vs ps : List α) : fill (vs.map some) ps = vs ++ ps := by
+  induction vs with
+  | nil => simp [fill_nil]
+  | cons v rest ih => simp [fill, ih]
+
+example : fill [some 100, some 101, none] [3] = [100, 101, 3] := by decide
+example : buildParamList [some 100, some 101, none] [3] = [100, 101, 3] := by decide
+example : buildParamList [none, some 7, none, some 9] [1, 2, 3] = [1, 7, 2, 9, 3] := by decide
+
+
+end BindSection
 
 end ChaiVerif.C06
